@@ -141,6 +141,19 @@ def apply_faults(df, idcols, iddims, faults, dims, wide):
             if f.get("change_value"):
                 vc = [c for c in df.columns if c not in idcols][0]
                 df.loc[len(df) - 1, vc] = 987.5
+        elif kind == "dup_and_drop":
+            # one label combination twice, another one missing: the row count is that of a complete table
+            if len(df) < 2:
+                f["kind"] = "none"
+                continue
+            j = (i + 1 + f.get("col", 0)) % len(df)
+            if j == i:
+                j = (i + 1) % len(df)
+            df = pd.concat([df, df.iloc[[i]]]).reset_index(drop=True)
+            if f.get("change_value"):
+                vc = [c for c in df.columns if c not in idcols][0]
+                df.loc[len(df) - 1, vc] = 987.5
+            df = df.drop(df.index[j]).reset_index(drop=True)
         elif kind == "relabel":
             c = idcols[f.get("col", 0) % len(idcols)]
             affected.append(labels_of(i))
